@@ -19,7 +19,7 @@ import numpy as rnp
 import z3
 
 from . import core
-from .core import SBool, SNum, Unsupported, is_sym, ite, sand, snot, sor
+from .core import SBV, SBool, SNum, SVoid, Unsupported, is_sym, ite, sand, snot, sor
 
 _ND = rnp.ndarray
 
@@ -35,7 +35,7 @@ def _is_larr(a):
 
 
 def _has_sym(a):
-    if isinstance(a, (SNum, SBool)):
+    if isinstance(a, (SNum, SBool, SBV)):
         return True
     if getattr(a, "__larr__", False):
         return True
@@ -72,6 +72,8 @@ def _dummy(x):
         return rnp.ones((), dtype=dt)
     if isinstance(x, SNum):
         return 1 if x.is_int else 1.0
+    if isinstance(x, SBV):
+        return rnp.ones((), dtype=rnp.int64 if x.signed else rnp.uint64)
     if isinstance(x, SBool):
         return True
     if isinstance(x, (bool, int, float)):
@@ -87,6 +89,8 @@ def _dummy(x):
 def _infer_ldt_from_elems(obj):
     kinds = set()
     for e in obj.flat:
+        if isinstance(e, SBV):
+            return rnp.dtype("int64") if e.signed else rnp.dtype("uint64")
         if isinstance(e, SNum):
             kinds.add("i" if e.is_int else "f")
         elif isinstance(e, (SBool, bool, rnp.bool_)):
@@ -128,7 +132,7 @@ def to_sarr(a, dtype=None):
         src = rnp.array(a.tolist(), dtype=object).reshape(a.shape) if a.size else src
         ldt = a.dtype
     else:
-        if isinstance(a, (SNum, SBool)):
+        if isinstance(a, (SNum, SBool, SBV)):
             src = rnp.empty((), dtype=object)
             src[()] = a
         else:
@@ -181,7 +185,7 @@ def _atan(x):
 
 
 def _power(a, b):
-    if isinstance(a, (SNum, SBool)):
+    if isinstance(a, (SNum, SBool, SBV)):
         return SNum.lift(a) ** b
     if isinstance(b, SNum):
         return SNum.lift(a) ** b
@@ -454,7 +458,7 @@ class SArr(_ND):
                 pin.append(_obj_array(x))
             elif isinstance(x, rnp.generic):
                 pin.append(x.item())
-            elif isinstance(x, (SNum, SBool)):
+            elif isinstance(x, (SNum, SBool, SBV)):
                 pin.append(_obj_array(x))
             else:
                 pin.append(x)
@@ -534,6 +538,15 @@ class SArr(_ND):
             return _ND.view(self, *a, **k)
         if a and isinstance(a[0], type) and issubclass(a[0], _ND):
             return _ND.view(self, *a, **k)
+        if a and isinstance(a[0], rnp.dtype) and a[0].kind == "V" and self.ndim == 2 and self.ldt is not None and a[0].itemsize == self.ldt.itemsize * self.shape[1]:
+            # structured/void view of an integer row: one element per row, equal iff all equal
+            p = _ND.view(self, _ND)
+            out = rnp.empty((p.shape[0], 1), dtype=object)
+            for i in range(p.shape[0]):
+                out[i, 0] = SVoid(list(p[i]))
+            r = out.view(SArr)
+            r.ldt = rnp.dtype(object)
+            return r
         raise Unsupported("dtype view of a symbolic array")
 
     def __getitem__(self, key):
@@ -565,7 +578,13 @@ class SArr(_ND):
         return _clip(self, min, max)
 
     def nonzero(self):
-        return _concrete_bool(self).nonzero()
+        return tuple(to_sarr(i) for i in _concrete_bool(self).nonzero())
+
+    def argsort(self, axis=-1, kind=None, order=None, **kw):
+        return to_sarr(_argsort(self, axis=axis))
+
+    def sort(self, axis=-1, kind=None, order=None, **kw):
+        self.view(_ND)[...] = _plain(_sort(self.copy(), axis=axis))
 
     def argmax(self, axis=None, out=None, **kw):
         return _argext(self, axis, True)
@@ -667,7 +686,7 @@ class _Gather:
             return arr[int(i)]
         inb = sand(i >= -n, i < n)
         if not bool(inb):
-            raise IndexError("index out of bounds (symbolic)")
+            raise core.modelled(IndexError("index out of bounds (symbolic)"))
         res = arr[n - 1]
         for k in range(n - 2, -1, -1):
             cond = sor(i == k, i == k - n)
@@ -680,7 +699,7 @@ class _Gather:
     def get(self, arr):
         p = arr.view(_ND)
         if p.shape[0] == 0:
-            raise IndexError("gather from empty axis")
+            raise core.modelled(IndexError("gather from empty axis"))
         out_shape = self.idx.shape
         first = None
         out = None
@@ -714,7 +733,7 @@ class _Gather:
                 continue
             inb = sand(i >= -n, i < n)
             if not bool(inb):
-                raise IndexError("index out of bounds (symbolic)")
+                raise core.modelled(IndexError("index out of bounds (symbolic)"))
             for k in range(n):
                 cond = sor(i == k, i == k - n)
                 if p.ndim == 1:
@@ -846,7 +865,7 @@ def _dot(a, b, out=None):
 
 def _where(cond, *xy):
     if not xy:
-        return _concrete_bool(to_sarr(cond)).nonzero()
+        return tuple(to_sarr(i) for i in _concrete_bool(to_sarr(cond)).nonzero())
     x, y = xy
     c = _plain(to_sarr(cond)) if not (isinstance(cond, _ND) and cond.dtype != object) else cond
     px = _plain(x) if isinstance(x, SArr) else (x if isinstance(x, _ND) and x.dtype != object else (_obj_array(x) if isinstance(x, (list, tuple, _ND)) else x))
@@ -1112,11 +1131,11 @@ def _array_equal(a, b, **kw):
 
 
 def _nonzero(a):
-    return _concrete_bool(to_sarr(a)).nonzero()
+    return tuple(to_sarr(i) for i in _concrete_bool(to_sarr(a)).nonzero())
 
 
 def _flatnonzero(a):
-    return _concrete_bool(to_sarr(a).reshape(-1)).nonzero()[0]
+    return to_sarr(_concrete_bool(to_sarr(a).reshape(-1)).nonzero()[0])
 
 
 def _abs(a):
@@ -1124,13 +1143,30 @@ def _abs(a):
 
 
 def _isscalar(x):
-    return isinstance(x, (SNum, SBool)) or rnp.isscalar(x)
+    return isinstance(x, (SNum, SBool, SBV)) or rnp.isscalar(x)
 
 
 def _bincount(x, weights=None, minlength=0):
+    if isinstance(x, SArr) and _contains_sym_elems(x) and weights is None:
+        # length = max(x)+1 is decided by forking (needs an upper bound from the path)
+        p = _plain(x)
+        top = None
+        for k in range(0, 65):
+            if bool(sand(*[_tb(e <= k) for e in p.flat])):
+                top = k
+                break
+        if top is None:
+            raise Unsupported("bincount of unbounded symbolic integers")
+        if not bool(sand(*[_tb(e >= 0) for e in p.flat])):
+            raise core.modelled(ValueError("'list' argument must have no negative elements"))
+        n = max(top + 1, int(minlength))
+        out = rnp.empty(n, dtype=object)
+        for k in range(n):
+            out[k] = functools.reduce(lambda a, b: a + b, [ite(e == k, 1, 0) for e in p.flat], 0)
+        return wrap(out, rnp.int64)
     x = _concrete_index(to_sarr(x)) if isinstance(x, SArr) else x
-    if weights is None or not _has_sym(weights):
-        return rnp.bincount(x, weights=weights, minlength=minlength)
+    if weights is None or not _holds_symbols(weights):
+        return from_real(rnp.bincount(to_real(x), weights=to_real(weights), minlength=minlength))
     w = _plain(to_sarr(weights))
     n = max(int(x.max()) + 1 if len(x) else 0, minlength)
     out = rnp.empty(n, dtype=object)
@@ -1321,11 +1357,16 @@ class Shim(types.ModuleType):
             w = _FuncWrapper(real, h)
             setattr(self, name, w)
             return w
+        if callable(real) and not isinstance(real, type) and not isinstance(real, rnp.ufunc) and (type(real).__name__ in ("function", "builtin_function_or_method", "_ArrayFunctionDispatcher")):
+            w = _GenericWrapper(real)
+            setattr(self, name, w)
+            return w
         return real
 
     # ---- creation
     def _mk(self, shape, dtype, fill):
         dt = _ldt_from(dtype)
+
         if isinstance(shape, (int, rnp.integer, SNum)):
             shape = (shape,)
         symd = [i for i, d in enumerate(shape) if isinstance(d, SNum) and not z3.is_int_value(z3.simplify(d.t))]
@@ -1410,7 +1451,8 @@ class Shim(types.ModuleType):
             while r.ndim < ndmin:
                 r = r[None]
             return r
-        return rnp.array(a, dtype=dtype, copy=copy, order=order, subok=subok, ndmin=ndmin)
+        r = rnp.array(a, dtype=dtype, copy=copy, order=order, subok=subok, ndmin=ndmin)
+        return from_real(r) if core.active() else r
 
     def asarray(self, a, dtype=None, order=None, **kw):
         if _is_larr(a):
@@ -1419,17 +1461,20 @@ class Shim(types.ModuleType):
             if isinstance(a, SArr) and (dtype is None or rnp.dtype(dtype) == a.ldt):
                 return a
             return to_sarr(a, dtype=dtype)
-        return rnp.asarray(a, dtype=dtype, order=order)
+        r = rnp.asarray(a, dtype=dtype, order=order)
+        return from_real(r) if core.active() else r
 
     def asanyarray(self, a, dtype=None, order=None, **kw):
         if _has_sym(a):
             return self.asarray(a, dtype=dtype)
-        return rnp.asanyarray(a, dtype=dtype, order=order)
+        r = rnp.asanyarray(a, dtype=dtype, order=order)
+        return from_real(r) if core.active() else r
 
     def ascontiguousarray(self, a, dtype=None, **kw):
         if _has_sym(a):
             return self.asarray(a, dtype=dtype)
-        return rnp.ascontiguousarray(a, dtype=dtype)
+        r = rnp.ascontiguousarray(a, dtype=dtype)
+        return from_real(r) if core.active() else r
 
     def require(self, a, dtype=None, requirements=None, **kw):
         if _has_sym(a):
@@ -1453,7 +1498,8 @@ class Shim(types.ModuleType):
                 seq = [_plain(to_sarr(s)) for s in seq]
                 k.pop("dtype", None)
                 return wrap(real(seq, *a, **k))
-            return real(seq, *a, **k)
+            r = real(to_real(seq) if isinstance(seq, (list, tuple)) else seq, *a, **k)
+            return from_real(r) if core.active() else r
 
         return f
 
@@ -1472,7 +1518,8 @@ class Shim(types.ModuleType):
             if axis is None:
                 return wrap(rnp.concatenate([a.reshape(-1), v.reshape(-1)]))
             return wrap(rnp.concatenate([a, v], axis=axis))
-        return rnp.append(arr, values, axis=axis)
+        r = rnp.append(to_real(arr), to_real(values), axis=axis)
+        return from_real(r) if core.active() else r
 
     def isscalar(self, x):
         return _isscalar(x)
@@ -1520,8 +1567,9 @@ class Shim(types.ModuleType):
             N = reps[0].t
             return larr.LArr(N, larr.index_for(N), to_sarr(a).reshape(-1), 0)
         if _has_sym(a):
-            return wrap(rnp.tile(_plain(to_sarr(a)), reps))
-        return rnp.tile(a, reps)
+            return wrap(rnp.tile(_plain(to_sarr(a)), reps), getattr(a, "ldt", None))
+        r = rnp.tile(a, reps)
+        return from_real(r) if core.active() else r
 
     def shape(self, a):
         if is_sym(a):
@@ -1532,6 +1580,76 @@ class Shim(types.ModuleType):
         if is_sym(a):
             return 0
         return rnp.ndim(a)
+
+
+def _holds_symbols(x):
+    if isinstance(x, (SNum, SBool, SBV)) or _is_larr(x):
+        return True
+    if isinstance(x, SArr):
+        return any(is_sym(e) or isinstance(e, SVoid) for e in x.view(_ND).flat)
+    if isinstance(x, (list, tuple)):
+        return any(_holds_symbols(e) for e in x)
+    if isinstance(x, dict):
+        return any(_holds_symbols(e) for e in x.values())
+    return False
+
+
+def to_real(x):
+    """SArr without symbolic content -> the typed numpy array it stands for"""
+    if isinstance(x, SArr):
+        dt = x.ldt if x.ldt is not None and x.ldt.kind != "O" else None
+        p = x.view(_ND)
+        try:
+            return rnp.array(p.tolist(), dtype=dt).reshape(p.shape)
+        except (ValueError, TypeError, OverflowError):
+            return rnp.array(p.tolist()).reshape(p.shape)
+    if isinstance(x, list):
+        return [to_real(e) for e in x]
+    if isinstance(x, tuple):
+        return tuple(to_real(e) for e in x)
+    return x
+
+
+def from_real(r):
+    """result of a real numpy call -> uniform SArr representation (inside a symbolic run)"""
+    if isinstance(r, SArr):
+        return r
+    if isinstance(r, _ND):
+        if r.dtype.kind in "biuf":
+            return to_sarr(r)
+        if r.dtype == object:
+            return wrap(r)
+        return r
+    if isinstance(r, tuple):
+        return tuple(from_real(e) for e in r)
+    if isinstance(r, list):
+        return [from_real(e) for e in r]
+    return r
+
+
+class _GenericWrapper:
+    """a numpy function without a symbolic override: inside a symbolic run every array is an
+    SArr; when no argument holds a symbol the real function runs on the typed arrays and
+    the result is brought back; otherwise numpy's own object-dtype implementation is used
+    (element operations go through the symbolic scalars; any bool() of a symbol forks)"""
+
+    def __init__(self, real):
+        self.real = real
+        self.__name__ = getattr(real, "__name__", "f")
+        self.__doc__ = getattr(real, "__doc__", None)
+
+    def __call__(self, *args, **kw):
+        if not core.active() and not any(_has_sym(a) for a in args):
+            return self.real(*args, **kw)
+        if any(_is_larr(a) for a in args) or (args and isinstance(args[0], (list, tuple)) and any(_is_larr(x) for x in args[0])):
+            return self.real(*args, **kw)
+        if not any(_holds_symbols(a) for a in args) and not any(_holds_symbols(v) for v in kw.values()):
+            r = self.real(*[to_real(a) for a in args], **{k: to_real(v) for k, v in kw.items()})
+            return from_real(r) if core.active() else r
+        return _rewrap(self.real(*args, **kw))
+
+    def __getattr__(self, name):
+        return getattr(self.real, name)
 
 
 class _UfuncWrapper:
@@ -1546,7 +1664,7 @@ class _UfuncWrapper:
         ins = args[: self.real.nin]
         if any(_is_larr(x) for x in ins):
             return self.real(*args, **kw)
-        if any(isinstance(x, (SNum, SBool)) for x in ins) and not any(isinstance(x, _ND) for x in ins) and not any(isinstance(x, (list, tuple)) for x in ins):
+        if any(isinstance(x, (SNum, SBool, SBV)) for x in ins) and not any(isinstance(x, _ND) for x in ins) and not any(isinstance(x, (list, tuple)) for x in ins):
             return UF[self.real.__name__](*[x.item() if isinstance(x, rnp.generic) else x for x in ins])
         if any(_has_sym(x) for x in ins):
             conv = [x if isinstance(x, SArr) else (to_sarr(x) if isinstance(x, (list, tuple, SNum, SBool)) else x) for x in ins]
@@ -1587,8 +1705,11 @@ class _FuncWrapper:
     def __call__(self, *args, **kw):
         if any(_is_larr(x) for x in args) or (args and isinstance(args[0], (list, tuple)) and any(_is_larr(x) for x in args[0])):
             return self.real(*args, **kw)
-        if any(_has_sym(x) for x in args) or any(_has_sym(v) for v in kw.values()):
+        if any(_holds_symbols(x) for x in args) or any(_holds_symbols(v) for v in kw.values()):
             return self.handler(*args, **kw)
+        if any(_has_sym(x) for x in args) or any(_has_sym(v) for v in kw.values()) or core.active():
+            r = self.real(*[to_real(a) for a in args], **{k: to_real(v) for k, v in kw.items()})
+            return from_real(r) if core.active() else r
         return self.real(*args, **kw)
 
     def __getattr__(self, name):
@@ -1596,6 +1717,10 @@ class _FuncWrapper:
 
 
 shim = Shim()
+
+
+def _dummy_sbv(x):
+    return rnp.ones((), dtype=rnp.int64 if x.signed else rnp.uint64)
 
 
 def _scalar_array_ufunc(self, ufunc, method, *inputs, **kwargs):
@@ -1606,7 +1731,7 @@ def _scalar_array_ufunc(self, ufunc, method, *inputs, **kwargs):
         return UF[ufunc.__name__](*[x.item() if isinstance(x, rnp.generic) else x for x in inputs])
     conv = [to_sarr(x) if (isinstance(x, _ND) and not isinstance(x, SArr)) else x for x in inputs]
     if not any(isinstance(x, SArr) for x in conv):
-        conv = [to_sarr(x) if isinstance(x, (SNum, SBool)) else x for x in conv]
+        conv = [to_sarr(x) if isinstance(x, (SNum, SBool, SBV)) else x for x in conv]
     first = next(x for x in conv if isinstance(x, SArr))
     return SArr.__array_ufunc__(first, ufunc, method, *conv, **kwargs)
 
@@ -1619,4 +1744,5 @@ def _array_fallback(seq, fn):
 
 core.ARRAY_FALLBACK = _array_fallback
 SNum.__array_ufunc__ = _scalar_array_ufunc
+SBV.__array_ufunc__ = _scalar_array_ufunc
 SBool.__array_ufunc__ = _scalar_array_ufunc
